@@ -1,2 +1,676 @@
-use crate::common::{Args, Report};
-pub fn run(_args: &Args, _r: &mut Report) {}
+//! C20 — "Versions parse, print and order numerically".
+//!
+//! Oracle: an independent reference parser (split on '.', 1..=4 parts, each `[0-9]+` with a value
+//! that fits u32, missing parts zero), the canonical rendering "a.b.c.d" and the lexicographic
+//! numeric comparison of 4-tuples.  `omaha_client::version::Version` is run on exhaustive and random
+//! inputs and every result (FromStr, Display, Debug, serde, From<[u32; N]>, Ord/Eq) is compared.
+
+use crate::common::{guard, Args, Fnv, PanicInfo, Report, Rng};
+use omaha_client::version::Version;
+use serde_json::{json, Value};
+use std::cmp::Ordering;
+use std::collections::BTreeMap;
+
+const RULES: [&str; 7] = [
+    "parse-accepts",
+    "parse-rejects",
+    "print-canonical",
+    "print-parse-roundtrip",
+    "json",
+    "from-array",
+    "ordering",
+];
+const TUPLE_VALUES: [u64; 9] = [0, 1, 9, 10, 99, 100, 1 << 31, (1 << 32) - 2, (1 << 32) - 1];
+const ALPHABET: [char; 8] = ['0', '1', '9', '.', '+', '-', ' ', 'a'];
+
+// ---------------------------------------------------------------------------------------------
+// Reference
+
+#[derive(Clone, Copy, Debug, PartialEq, Eq)]
+enum Expect {
+    Accept([u32; 4]),
+    Reject,
+    /// Some part is `+digits`: the statement does not decide; if accepted the value must be this.
+    PlusDontCare([u32; 4]),
+}
+
+fn split_dots(s: &str) -> Vec<&str> {
+    let mut parts = vec![];
+    let mut start = 0;
+    for (i, b) in s.bytes().enumerate() {
+        if b == b'.' {
+            parts.push(&s[start..i]);
+            start = i + 1;
+        }
+    }
+    parts.push(&s[start..]);
+    parts
+}
+fn ref_part(p: &str, allow_plus: bool) -> Option<u32> {
+    let digits = if allow_plus { p.strip_prefix('+').unwrap_or(p) } else { p };
+    if digits.is_empty() || !digits.bytes().all(|b| b.is_ascii_digit()) {
+        return None;
+    }
+    let significant = digits.trim_start_matches('0');
+    if significant.len() > 10 {
+        return None;
+    }
+    let v = significant.bytes().fold(0u64, |acc, b| acc * 10 + (b - b'0') as u64);
+    u32::try_from(v).ok()
+}
+fn ref_parse_with(s: &str, allow_plus: bool) -> Option<[u32; 4]> {
+    let parts = split_dots(s);
+    if parts.len() > 4 {
+        return None;
+    }
+    let mut a = [0u32; 4];
+    for (i, p) in parts.iter().enumerate() {
+        a[i] = ref_part(p, allow_plus)?;
+    }
+    Some(a)
+}
+fn ref_parse(s: &str) -> Expect {
+    match (ref_parse_with(s, false), ref_parse_with(s, true)) {
+        (Some(a), _) => Expect::Accept(a),
+        (None, Some(a)) => Expect::PlusDontCare(a),
+        (None, None) => Expect::Reject,
+    }
+}
+fn canonical(a: [u32; 4]) -> String {
+    format!("{}.{}.{}.{}", a[0], a[1], a[2], a[3])
+}
+fn ref_cmp(a: [u32; 4], b: [u32; 4]) -> Ordering {
+    for i in 0..4 {
+        if a[i] < b[i] {
+            return Ordering::Less;
+        }
+        if a[i] > b[i] {
+            return Ordering::Greater;
+        }
+    }
+    Ordering::Equal
+}
+fn render(parts: &[u64]) -> String {
+    parts.iter().map(|p| p.to_string()).collect::<Vec<_>>().join(".")
+}
+
+// ---------------------------------------------------------------------------------------------
+// Classification
+
+fn is_boundary_value(v: u32) -> bool {
+    matches!(v, 9 | 10 | 99 | 100) || v >= 1 << 31 || v.is_power_of_two() && v > 1 << 15
+}
+fn part_class(p: &str) -> &'static str {
+    if p.is_empty() {
+        "empty"
+    } else if p.bytes().all(|b| b.is_ascii_digit()) {
+        match ref_part(p, false) {
+            None => "overflow",
+            Some(_) if p.len() > 1 && p.starts_with('0') => "leading-zero",
+            Some(0) => "zero",
+            Some(v) if is_boundary_value(v) => "boundary",
+            Some(v) if v < 1000 => "small",
+            Some(_) => "big",
+        }
+    } else if p.starts_with('+') {
+        "plus-sign"
+    } else if p.starts_with('-') {
+        "minus-sign"
+    } else if p.chars().any(|c| c.is_whitespace()) {
+        "space"
+    } else if p.bytes().any(|b| b.is_ascii_alphabetic()) {
+        "letter"
+    } else if !p.is_ascii() {
+        "unicode"
+    } else {
+        "other"
+    }
+}
+/// (shape, nontrivial, coarse feature used in signatures)
+fn text_shape(rule: &str, s: &str) -> (u64, bool, &'static str) {
+    let parts = split_dots(s);
+    let mut f = Fnv::new();
+    f.str(rule).u64(parts.len().min(8) as u64).u64((s.len() > 64) as u64);
+    let mut plain_small = parts.len() == 4;
+    let mut feature = "";
+    let mut odd = 0u64; // parts that are not plain numbers
+    for (i, p) in parts.iter().take(8).enumerate() {
+        let c = part_class(p);
+        let numeric = matches!(c, "zero" | "small" | "boundary" | "big");
+        if i < 4 {
+            // positional skeleton of the four meaningful positions
+            f.str(match c {
+                "zero" | "boundary" => c,
+                "small" | "big" => "num",
+                _ => "odd",
+            });
+        }
+        odd += !numeric as u64;
+        plain_small &= c == "small";
+        if feature.is_empty() && !numeric {
+            feature = c;
+        }
+    }
+    f.str(feature).u64(odd.min(2)); // class of the first odd part, and whether there are more
+    let feature = if parts.len() > 4 {
+        "too-many-parts"
+    } else if !feature.is_empty() {
+        feature
+    } else if parts.len() < 4 {
+        "short"
+    } else {
+        "plain"
+    };
+    (f.finish(), !plain_small, feature)
+}
+fn tuple_shape(rule: &str, parts: &[u32]) -> (u64, bool) {
+    let mut f = Fnv::new();
+    f.str(rule).u64(parts.len() as u64);
+    let mut plain_small = parts.len() == 4;
+    for &p in parts {
+        let c = if p == 0 {
+            0u64
+        } else if is_boundary_value(p) {
+            match p {
+                u32::MAX => 6,
+                x if x >= 1 << 31 => 5,
+                x if x > 100 => 4,
+                _ => 3,
+            }
+        } else if p < 1000 {
+            1
+        } else {
+            2
+        };
+        plain_small &= c == 1;
+        f.u64(c);
+    }
+    (f.finish(), !plain_small)
+}
+
+// ---------------------------------------------------------------------------------------------
+// Monitors
+
+struct Ctx<'a> {
+    r: &'a mut Report,
+    seen: BTreeMap<String, u32>,
+    sampled: u32,
+}
+
+fn clip(s: &str) -> String {
+    if s.len() <= 120 {
+        format!("{s:?}")
+    } else {
+        let cut = s.char_indices().nth(80).map(|x| x.0).unwrap_or(s.len());
+        format!("{:?}... ({} bytes)", &s[..cut], s.len())
+    }
+}
+
+impl Ctx<'_> {
+    /// At most 2 violations per signature and shard, so one systematic fault cannot crowd out others.
+    fn viol(&mut self, rule: &str, sig: String, detail: String, replay: Value) {
+        let k = self.seen.entry(sig.clone()).or_insert(0);
+        *k += 1;
+        if *k <= 2 {
+            self.r.violation(rule, &sig, detail, replay);
+        } else {
+            self.r.count(&format!("more_violations[{sig}]"), 1);
+        }
+    }
+    fn panicked(&mut self, rule: &str, p: PanicInfo, replay: Value) {
+        let sig = format!("panic@{}", p.site());
+        self.viol(rule, sig, format!("panic `{}` at {} while judging {}", p.msg, p.loc, rule), replay);
+    }
+    fn sample(&mut self, kind: u32, v: impl FnOnce() -> Value) {
+        if self.sampled & (1 << kind) == 0 && self.r.want_sample() {
+            self.sampled |= 1 << kind;
+            self.r.sample(v());
+        }
+    }
+
+    /// Judge one outcome (direct parse or via JSON) against the reference expectation.
+    fn judge_parse(&mut self, rule_json: bool, s: &str, got: Result<(Version, String), String>, expect: Expect) {
+        let replay = json!({"kind": "text", "text": s});
+        let via = if rule_json { "serde_json::from_str of the JSON string" } else { "parse" };
+        let (acc, rej) = if rule_json { ("json", "json") } else { ("parse-accepts", "parse-rejects") };
+        let base_rule = if rule_json { "json" } else if expect == Expect::Reject { rej } else { acc };
+        let (shape, nontrivial, feature) = text_shape(base_rule, s);
+        if !matches!((expect, &got), (Expect::PlusDontCare(_), Err(_))) {
+            self.r.eval(shape, nontrivial); // an undecided outcome is not an oracle decision
+        }
+        match (expect, got) {
+            (Expect::Accept(a), Ok((v, printed))) | (Expect::PlusDontCare(a), Ok((v, printed))) => {
+                self.r.hit(acc);
+                if expect != Expect::Accept(a) {
+                    self.r.count("plus_sign_dont_care_accepted", 1);
+                }
+                let same = guard(|| v == Version::from(a)).unwrap_or(false);
+                if !same || printed != canonical(a) {
+                    self.viol(acc, format!("{acc} wrong-value {feature}"),
+                        format!("{via} of {} gave {printed} (== from({a:?}): {same}), expected {}", clip(s), canonical(a)), replay);
+                }
+            }
+            (Expect::Accept(a), Err(e)) => {
+                self.r.hit(acc);
+                self.viol(acc, format!("{acc} rejected {feature}"),
+                    format!("{via} of {} failed with `{e}`, expected {}", clip(s), canonical(a)), replay);
+            }
+            (Expect::PlusDontCare(_), Err(_)) => self.r.count("plus_sign_dont_care_rejected", 1),
+            (Expect::Reject, Err(_)) => self.r.hit(rej),
+            (Expect::Reject, Ok((_, printed))) => {
+                self.r.hit(rej);
+                self.viol(rej, format!("{rej} accepted {feature}"),
+                    format!("{via} of {} gave {printed}, expected rejection", clip(s)), replay);
+            }
+        }
+    }
+
+    /// parse-accepts / parse-rejects / json (string input) for an arbitrary text.
+    fn check_text(&mut self, s: &str) {
+        let expect = ref_parse(s);
+        let replay = || json!({"kind": "text", "text": s});
+        match guard(|| s.parse::<Version>().map(|v| (v, v.to_string())).map_err(|e| format!("{e} / {e:?}"))) {
+            Err(p) => {
+                self.r.hit(if expect == Expect::Reject { "parse-rejects" } else { "parse-accepts" });
+                self.panicked(if expect == Expect::Reject { "parse-rejects" } else { "parse-accepts" }, p, replay())
+            }
+            Ok(got) => {
+                if matches!((&got, expect), (Ok(_), Expect::Accept(_))) && split_dots(s).len() < 4 {
+                    self.sample(0, || json!({"rule": "parse-accepts", "text": s, "parsed": got.as_ref().ok().map(|x| x.1.clone()),
+                        "expected": format!("{expect:?}")}));
+                }
+                self.judge_parse(false, s, got, expect)
+            }
+        }
+        let js = serde_json::to_string(s).unwrap_or_default();
+        match guard(|| serde_json::from_str::<Version>(&js).map(|v| (v, v.to_string())).map_err(|e| e.to_string())) {
+            Err(p) => {
+                self.r.hit("json");
+                self.panicked("json", p, replay())
+            }
+            Ok(got) => self.judge_parse(true, s, got, expect),
+        }
+    }
+
+    /// from-array, print-canonical, print-parse-roundtrip, json (serialisation) for 1..=4 numbers.
+    fn check_tuple(&mut self, parts: &[u32]) {
+        let mut a = [0u32; 4];
+        a[..parts.len()].copy_from_slice(parts);
+        let want = canonical(a);
+        let replay = || json!({"kind": "tuple", "parts": parts});
+
+        let (shape, nontrivial) = tuple_shape("from-array", parts);
+        self.r.eval(shape, nontrivial);
+        self.r.hit("from-array");
+        let built = guard(|| {
+            let short = match *parts {
+                [x] => Version::from([x]),
+                [x, y] => Version::from([x, y]),
+                [x, y, z] => Version::from([x, y, z]),
+                _ => Version::from(a),
+            };
+            let full = Version::from(a);
+            (short, full, short == full, short.to_string())
+        });
+        let v = match built {
+            Err(p) => return self.panicked("from-array", p, replay()),
+            Ok((_short, full, same, printed)) => {
+                if !same || printed != want {
+                    self.viol("from-array", format!("from-array len={}", parts.len()),
+                        format!("Version::from({parts:?}) prints {printed} (== from({a:?}): {same}), expected {want}"), replay());
+                }
+                full
+            }
+        };
+
+        let (shape, nontrivial) = tuple_shape("print-canonical", parts);
+        self.r.eval(shape, nontrivial);
+        self.r.hit("print-canonical");
+        match guard(|| (v.to_string(), format!("{v:?}"), format!("{v}"))) {
+            Err(p) => self.panicked("print-canonical", p, replay()),
+            Ok((d1, dbg, d2)) => {
+                if d1 != want || dbg != want || d2 != want {
+                    self.viol("print-canonical", "print-canonical".into(),
+                        format!("Version::from({a:?}): to_string = {d1:?}, Debug = {dbg:?}, Display = {d2:?}, expected {want:?}"), replay());
+                }
+            }
+        }
+
+        let (shape, nontrivial) = tuple_shape("print-parse-roundtrip", parts);
+        self.r.eval(shape, nontrivial);
+        self.r.hit("print-parse-roundtrip");
+        match guard(|| v.to_string().parse::<Version>().map(|w| (w == v, w.to_string())).map_err(|e| e.to_string())) {
+            Err(p) => self.panicked("print-parse-roundtrip", p, replay()),
+            Ok(Ok((true, _))) => {}
+            Ok(other) => self.viol("print-parse-roundtrip", "print-parse-roundtrip".into(),
+                format!("parse(print(Version::from({a:?}))) = {other:?}, expected the same version"), replay()),
+        }
+
+        let (shape, nontrivial) = tuple_shape("json", parts);
+        self.r.eval(shape, nontrivial);
+        self.r.hit("json");
+        match guard(|| {
+            let text = serde_json::to_string(&v).map_err(|e| e.to_string())?;
+            let value = serde_json::to_value(v).map_err(|e| e.to_string())?;
+            let back = serde_json::from_str::<Version>(&text).map_err(|e| e.to_string())?;
+            Ok::<_, String>((text, value, back == v))
+        }) {
+            Err(p) => self.panicked("json", p, replay()),
+            Ok(Ok((text, value, true))) if text == format!("\"{want}\"") && value == Value::String(want.clone()) => {
+                if parts.len() < 4 {
+                    self.sample(1, || json!({"rule": "json/from-array", "array": parts, "json": text, "expected_json": format!("\"{want}\"")}));
+                }
+            }
+            Ok(other) => self.viol("json", "json serialize".into(),
+                format!("JSON of Version::from({a:?}) = {other:?} (text, value, from_str(text) == v), expected \"{want}\""), replay()),
+        }
+    }
+
+    /// json: anything that is not a JSON string must fail to deserialise.
+    fn check_json_raw(&mut self, js: &str) {
+        let replay = json!({"kind": "json-raw", "json": js});
+        let mut f = Fnv::new();
+        f.str("json-raw").str(js.get(..1).unwrap_or("")).u64(js.len().min(16) as u64);
+        self.r.eval(f.finish(), true);
+        self.r.hit("json");
+        match guard(|| serde_json::from_str::<Version>(js).map(|v| v.to_string()).map_err(|e| e.to_string())) {
+            Err(p) => self.panicked("json", p, replay),
+            Ok(Err(_)) => {}
+            Ok(Ok(v)) => self.viol("json", "json accepts non-string".into(),
+                format!("serde_json::from_str::<Version>({js:?}) gave {v}, expected an error"), replay),
+        }
+    }
+
+    /// ordering: cmp / partial_cmp / == / != / < / <= / > / >= against the numeric tuple order.
+    fn check_order(&mut self, a: [u32; 4], b: [u32; 4]) {
+        let want = ref_cmp(a, b);
+        let first_diff = (0..4).find(|&i| a[i] != b[i]);
+        let mut f = Fnv::new();
+        f.str("ordering").u64(first_diff.map_or(9, |i| i as u64)).u64(want as i8 as u64);
+        let mut stringy = false; // would a per-component string comparison disagree?
+        if let Some(i) = first_diff {
+            stringy = a[i].to_string().cmp(&b[i].to_string()) != want;
+            f.u64(stringy as u64).u64((32 - (a[i] ^ b[i]).leading_zeros()) as u64);
+            f.u64((0..4).filter(|&j| j > i && ref_cmp([a[j]; 4], [b[j]; 4]) == want.reverse()).count() as u64);
+        }
+        self.r.eval(f.finish(), first_diff != Some(0) || stringy || a[0].max(b[0]) >= 1 << 31);
+        self.r.hit("ordering");
+        let replay = json!({"kind": "order", "a": a, "b": b});
+        match guard(|| {
+            let (x, y) = (Version::from(a), Version::from(b));
+            (x.cmp(&y), x.partial_cmp(&y), [x == y, x != y, x < y, x <= y, x > y, x >= y], y.cmp(&x))
+        }) {
+            Err(p) => self.panicked("ordering", p, replay),
+            Ok((c, pc, ops, rev)) => {
+                let want_ops = [want.is_eq(), want.is_ne(), want.is_lt(), want.is_le(), want.is_gt(), want.is_ge()];
+                if c != want || pc != Some(want) || rev != want.reverse() {
+                    self.viol("ordering", "ordering cmp".into(),
+                        format!("{}.cmp({}) = {c:?}, partial_cmp = {pc:?}, reversed cmp = {rev:?}; expected {want:?}", canonical(a), canonical(b)), replay);
+                } else if ops != want_ops {
+                    self.viol("ordering", "ordering operators".into(),
+                        format!("{} vs {}: [==, !=, <, <=, >, >=] = {ops:?}, expected {want_ops:?}", canonical(a), canonical(b)), replay);
+                }
+                if stringy {
+                    self.sample(2, || json!({"rule": "ordering", "a": canonical(a), "b": canonical(b), "cmp": format!("{c:?}"), "expected": format!("{want:?}")}));
+                }
+            }
+        }
+    }
+
+    fn replay(&mut self, v: &Value) -> Option<()> {
+        let arr4 = |k: &str| -> Option<[u32; 4]> {
+            let x: Vec<u32> = v.get(k)?.as_array()?.iter().filter_map(|n| n.as_u64().map(|n| n as u32)).collect();
+            <[u32; 4]>::try_from(x).ok()
+        };
+        match v.get("kind")?.as_str()? {
+            "text" => self.check_text(v.get("text")?.as_str()?),
+            "tuple" => {
+                let p: Vec<u32> = v.get("parts")?.as_array()?.iter().filter_map(|n| n.as_u64().map(|n| n as u32)).collect();
+                if p.is_empty() || p.len() > 4 {
+                    return None;
+                }
+                self.check_tuple(&p)
+            }
+            "json-raw" => self.check_json_raw(v.get("json")?.as_str()?),
+            "order" => self.check_order(arr4("a")?, arr4("b")?),
+            _ => return None,
+        }
+        Some(())
+    }
+}
+
+// ---------------------------------------------------------------------------------------------
+// Generators
+
+fn gen_u32(g: &mut Rng) -> u32 {
+    match g.below(6) {
+        0 => g.below(1000) as u32,
+        1 => *g.pick(&TUPLE_VALUES) as u32,
+        2 => {
+            let b = 1 + g.below(32);
+            (g.next_u64() >> (64 - b)) as u32
+        }
+        3 => u32::MAX - g.below(3) as u32,
+        4 => (1u32 << g.below(32)).wrapping_add(g.below(3) as u32).wrapping_sub(1),
+        _ => g.next_u32(),
+    }
+}
+fn digits(g: &mut Rng, n: usize) -> String {
+    (0..n).map(|_| (b'0' + g.below(10) as u8) as char).collect()
+}
+fn gen_part(g: &mut Rng) -> String {
+    match g.below(20) {
+        0..=7 => gen_u32(g).to_string(),
+        8 => format!("{}{}", "0".repeat(*g.pick(&[1usize, 2, 9, 10, 40, 300])), gen_u32(g)),
+        9 => match g.below(5) {
+            0 => "4294967296".to_string(),
+            1 => format!("{}{}", u32::MAX, g.below(10)),
+            2 => format!("1{}", digits(g, 19)),
+            3 => "99999999999".to_string(),
+            _ => (u32::MAX as u64 + 1 + g.below(1 << 40)).to_string(),
+        },
+        10 => format!("+{}", gen_u32(g)),
+        11 => format!("-{}", gen_u32(g)),
+        12 => match g.below(4) {
+            0 => format!(" {}", gen_u32(g)),
+            1 => format!("{} ", gen_u32(g)),
+            2 => format!("1 {}", g.below(10)),
+            _ => format!("{}{}", g.pick(&["\t", "\n", "\r\n", "\u{a0}"]), gen_u32(g)),
+        },
+        13 => g.pick(&["a", "1a", "a1", "0x10", "1e3", "1_000", "NaN", "1,2", "1/2"]).to_string(),
+        14 => g.pick(&["\u{661}", "\u{ff11}\u{ff12}", "\u{b2}", "1\u{661}", "\u{96f}", "\u{1d7d9}"]).to_string(),
+        15 => String::new(),
+        16 => g.pick(&["+", "-", "+-1", "++1", "+0", "-0", "+00", "+ 1", "1+", "1-"]).to_string(),
+        17 => "0".repeat(1 + g.usize(12)),
+        18 => format!("{}\0", gen_u32(g)),
+        _ => format!("+{}", u32::MAX as u64 + 1 + g.below(1000)),
+    }
+}
+fn gen_text(g: &mut Rng) -> String {
+    if g.chance(1, 200) {
+        // very long inputs
+        return match g.below(4) {
+            0 => {
+                let n = 200 + g.usize(5000);
+                digits(g, n)
+            }
+            1 => vec!["1"; 5 + g.usize(2000)].join("."),
+            2 => format!("{}{}.2", "0".repeat(1000 + g.usize(4000)), gen_u32(g)),
+            _ => ".".repeat(1 + g.usize(3000)),
+        };
+    }
+    let nparts = *g.pick(&[0usize, 1, 1, 2, 2, 3, 3, 4, 4, 4, 4, 5, 6]);
+    let mut s = (0..nparts).map(|_| gen_part(g)).collect::<Vec<_>>().join(".");
+    match g.below(24) {
+        0 => s.insert(0, ' '),
+        1 => s.push(' '),
+        2 => s.push('\n'),
+        3 => s.insert(0, '.'),
+        4 => s.push('.'),
+        5 => s = s.replacen('.', "..", 1),
+        6 => s = s.replacen('.', ",", 1),
+        7 => s.push('\0'),
+        8 => s = s.replacen('.', "\u{3002}", 1),
+        _ => {}
+    }
+    s
+}
+fn order_set() -> Vec<[u32; 4]> {
+    let mut v: Vec<[u32; 4]> = vec![];
+    for vals in [&[0u32, 1, u32::MAX][..], &[9, 10], &[1 << 31, (1 << 31) + 1]] {
+        let k = vals.len();
+        for i in 0..k.pow(4) {
+            v.push([vals[i % k], vals[i / k % k], vals[i / (k * k) % k], vals[i / (k * k * k)]]);
+        }
+    }
+    for pos in 0..4 {
+        for x in [0u32, 1, 2, 9, 10, 11, 99, 100, 255, 256, 65535, 65536, (1 << 31) - 1, 1 << 31, u32::MAX - 1, u32::MAX] {
+            let mut t = [5u32, 50, 500, 5000];
+            t[pos] = x;
+            v.push(t);
+        }
+    }
+    v.sort_unstable();
+    v.dedup();
+    v
+}
+const JSON_RAW: [&str; 16] = [
+    "null", "0", "1", "1.2", "1234", "true", "false", "[1,2,3,4]", "[\"1.2.3.4\"]", "{}", "{\"version\":\"1.2.3.4\"}",
+    "[]", "-1", "1e3", "[1]", "4294967295",
+];
+
+pub fn run(args: &Args, r: &mut Report) {
+    r.rule_text = "Cases: (a) EXHAUSTIVE all tuples of 0..=6 numbers over {0,1,9,10,99,100,2^31,2^32-2,2^32-1} joined with '.' \
+        (597 871 texts; the 7 380 with 1..=4 parts also go through From<[u32;N]>, Display/Debug, print->parse and serde); \
+        (b) EXHAUSTIVE all 37 449 strings of length <= 5 over {0,1,9,'.','+','-',' ','a'}; (c) EXHAUSTIVE all ordered pairs over \
+        177 boundary versions (31 329 pairs); (d) fixed JSON non-strings; (e) random: u32 tuples, texts built part-wise from plain / boundary / \
+        leading-zero / overflowing / '+'- / '-'-prefixed / spaced / lettered / non-ASCII-digit / empty / NUL-containing parts with \
+        0..6 parts and whole-string mutations (outer spaces, newline, leading/trailing/double dots, other separators), very long \
+        inputs, and random ordering pairs (equal, one component changed, unrelated). Each text is parsed directly and via a JSON \
+        string. A case is distinct by (rule, number of parts, zero/number/boundary/odd skeleton of the first four parts, class of the first odd part among empty/overflow/\
+        leading-zero/plus-sign/minus-sign/space/letter/unicode/other, whether more than one part is odd) or, for orderings, (first differing position, \
+        result, whether string order disagrees, bit distance, later components pointing the other way); it is non-trivial unless \
+        it is four small plain numbers (orderings: unless decided by an ordinary first component). '+digits' parts are don't-care."
+        .into();
+    r.require(&RULES);
+    r.assume("serde_json string escaping/unescaping and its type errors are correct");
+    r.assume("std u32/u64 Display and comparison used by the reference rendering and ordering are correct");
+    r.assume("the harness's reference parser implements the statement: 1..=4 dot-separated [0-9]+ parts, each value < 2^32, leading zeros allowed");
+
+    // anyhow captures a backtrace per parse error when RUST_BACKTRACE is set (about 30 us each, 10x the
+    // whole check); that is irrelevant to the property, so switch it off for library errors only.
+    // Single-threaded at this point; read once by std and cached.
+    if std::env::var_os("RUST_LIB_BACKTRACE").is_none() {
+        std::env::set_var("RUST_LIB_BACKTRACE", "0");
+    }
+
+    let mut cx = Ctx { r, seen: BTreeMap::new(), sampled: 0 };
+
+    if let Some(path) = &args.replay {
+        let v: Value = std::fs::read_to_string(path).ok().and_then(|s| serde_json::from_str(&s).ok()).unwrap_or(Value::Null);
+        if cx.replay(v.get("replay").unwrap_or(&v)).is_none() {
+            cx.r.inconclusive.push(format!("cannot parse replay file {path}"));
+        }
+        return;
+    }
+
+    let miri = args.layer == "miri";
+    let budget = if miri { args.budget(24_000, 24_000).min(1_500) } else { args.budget(1_000_000, 20_000_000) };
+    let mut idx = 0u64; // global enumeration index: decides the owning shard
+
+    // (a) tuples over the boundary values; (b) short strings over the alphabet
+    let (max_tuple, max_str) = if miri { (2, 2) } else { (6, 5) };
+    for len in 0..=max_tuple {
+        let mut parts = vec![0u64; len];
+        for code in 0..9u64.pow(len as u32) {
+            idx += 1;
+            if !args.mine(idx) {
+                continue;
+            }
+            let mut c = code;
+            for p in parts.iter_mut() {
+                *p = TUPLE_VALUES[(c % 9) as usize];
+                c /= 9;
+            }
+            cx.check_text(&render(&parts));
+            if (1..=4).contains(&len) {
+                let t: Vec<u32> = parts.iter().map(|&p| p as u32).collect();
+                cx.check_tuple(&t);
+            }
+        }
+    }
+    for len in 0..=max_str {
+        for code in 0..8u64.pow(len as u32) {
+            idx += 1;
+            if !args.mine(idx) {
+                continue;
+            }
+            let mut c = code;
+            let s: String = (0..len).map(|_| { let ch = ALPHABET[(c % 8) as usize]; c /= 8; ch }).collect();
+            cx.check_text(&s);
+        }
+    }
+    cx.r.count("enumerated_texts_all_shards", idx);
+    // (c) all pairs over the boundary versions; (d) JSON non-strings
+    let set = order_set();
+    let stride = if miri { 97 } else { 1 };
+    for (i, a) in set.iter().enumerate() {
+        for (j, b) in set.iter().enumerate() {
+            idx += 1;
+            if args.mine(idx) && (i * set.len() + j) % stride == 0 {
+                cx.check_order(*a, *b);
+            }
+        }
+    }
+    cx.r.count("ordering_set_size", set.len() as u64);
+    for js in JSON_RAW {
+        idx += 1;
+        if args.mine(idx) {
+            cx.check_json_raw(js);
+        }
+    }
+    if !miri {
+        cx.r.exhaustive = Some(true);
+    }
+    cx.r.count("exhaustive_phase_evaluations", cx.r.evaluations);
+
+    // (e) random cases: up to the budget, and at least a quarter of it
+    let target = cx.r.evaluations.max(budget * 3 / 4) + budget / 4;
+    let mut g = args.rng(20);
+    let mut i = 0u64;
+    while cx.r.evaluations < target {
+        match i % 8 {
+            0..=3 => cx.check_text(&gen_text(&mut g)),
+            4 => {
+                let t: Vec<u32> = (0..1 + g.usize(4)).map(|_| gen_u32(&mut g)).collect();
+                cx.check_tuple(&t);
+                cx.check_text(&render(&t.iter().map(|&x| x as u64).collect::<Vec<_>>()));
+            }
+            5 => {
+                let n = g.below(1 << 40);
+                cx.check_json_raw(&if g.bool() { n.to_string() } else { format!("[{n}]") })
+            }
+            _ => {
+                let a = [gen_u32(&mut g), gen_u32(&mut g), gen_u32(&mut g), gen_u32(&mut g)];
+                let mut b = a;
+                match g.below(4) {
+                    0 => {}
+                    1 => b = [gen_u32(&mut g), gen_u32(&mut g), gen_u32(&mut g), gen_u32(&mut g)],
+                    _ => {
+                        // change one component, let later ones pull the other way
+                        let p = g.usize(4);
+                        b[p] = if g.bool() { a[p].wrapping_add(1) } else { gen_u32(&mut g) };
+                        for q in p + 1..4 {
+                            if g.bool() {
+                                b[q] = gen_u32(&mut g);
+                            }
+                        }
+                    }
+                }
+                cx.check_order(a, b);
+            }
+        }
+        i += 1;
+    }
+    cx.r.count("random_cases", i);
+}
